@@ -72,7 +72,7 @@ def t_lc_wire(ex):
     """ListChange.to_wire: 'set' iff replace given; else 'add'/'remove' iff non-empty; values are the str() of the field."""
     it = Interp(ex, label="C39.ListChange.to_wire")
     fn = it.target(FILE, "ListChange.to_wire")
-    c = mk_change(it, ex, "c", elem=KStr)
+    c = mk_change(it, ex, "c")  # str(x) of an element is the uninterpreted str_of_Elem(x)
     out = call(it, fn, c)
     ex.oblige("C39.ListChange.to_wire.raises.nothing", not out.raised, kind="exceptional-postcondition")
     if out.raised:
@@ -98,14 +98,15 @@ def t_lc_wire(ex):
 
 
 def _same_items(it, got, want):
-    """same length and same element at every index."""
+    """same length and got[j] == str(want[j]) at every index."""
     from pyvc.sym import SSeq, I
+    from pyvc import theory
     if not isinstance(got, SSeq):
-        got = KSeq(KStr, "list").lift(list(got))
-        got = SSeq(got, KSeq(KStr, "list"))
+        return False
+    str_of = theory.ufun(f"str_of_{want.kind.elem.name}", want.kind.elem.sort, z3.StringSort())
     j = z3.Int("j!same")
     return SBool(z3.And(z3.Length(got.t) == z3.Length(want.t),
-                        z3.ForAll([j], z3.Implies(z3.And(j >= 0, j < z3.Length(want.t)), got.t[j] == want.t[j]))))
+                        z3.ForAll([j], z3.Implies(z3.And(j >= 0, j < z3.Length(want.t)), got.t[j] == str_of(want.t[j])))))
 
 
 OPT_STR = ("status", "resolution", "summary", "assigned_to", "whiteboard", "runtime_testing_required")
